@@ -53,6 +53,16 @@ type fakeExchange struct {
 	served  map[string][]string
 	onQuiet func() // every wanted block was either delivered or has run out of offers
 	notify  int
+	// overlap mode: several calls ask for the same CIDs at the same time. Offers are then scripted per
+	// CID (taken from the first call's block order), every call's GetBlocks waits at the gate until the
+	// driver has seen all calls enter, and no call is handed a block before every call has hashed its
+	// candidates (the registry of verifying unmarshal functions belongs to the first requester).
+	overlap    bool
+	entered    chan int       // one tick per GetBlocks call
+	gate       chan struct{}  // closed by the driver
+	byCID      map[string]int // CID -> block index of the first call
+	calls      []*overlapCall
+	distribute sync.Once
 }
 
 func newFakeExchange(d *driver, c *Case, ref *shx.Ref, _ []shx.Req) *fakeExchange {
@@ -105,6 +115,16 @@ func (fx *fakeExchange) candidate(want cid.Cid, idx int, pos int, spec string) (
 	rng := seeded(fx.d.seed, fmt.Sprintf("bs/%s/%d/%d/%s", fx.c.ID, idx, pos, spec))
 	if variant < 0 {
 		variant = rng.Intn(3)
+		if pos%10 == 0 {
+			// the first candidate of a sequence is always one that DECODES and fails verification (a bit
+			// flipped inside a share; another position's container under the wanted CID): what a later
+			// candidate for the same CID meets afterwards is the interesting part
+			if kind == "garble" {
+				variant = 0
+			} else if kind == "other" {
+				variant = 1
+			}
+		}
 	}
 	hb, err := fx.honest.Get(context.Background(), want)
 	if err != nil {
@@ -199,6 +219,9 @@ func (fx *fakeExchange) otherCID(want cid.Cid, rng interface{ Intn(int) int }) (
 }
 
 func (fx *fakeExchange) GetBlocks(ctx context.Context, cids []cid.Cid) (<-chan blocks.Block, error) {
+	if fx.overlap {
+		return fx.getBlocksOverlap(ctx, cids)
+	}
 	fx.mu.Lock()
 	base := len(fx.order)
 	fx.order = append(fx.order, cids...)
@@ -254,6 +277,105 @@ func (fx *fakeExchange) GetBlocks(ctx context.Context, cids []cid.Cid) (<-chan b
 		<-ctx.Done() // GetBlocks closes the channel on context cancellation
 	}()
 	return ch, nil
+}
+
+// getBlocksOverlap: see the overlap fields. An empty want list yields a closed channel at once, as a
+// Bitswap session does. Like the Bitswap client, the exchange hashes every incoming candidate ONCE
+// (whoever registered the unmarshal function for that CID gets populated by it) and hands the first
+// candidate that passes to every call that wants the CID.
+func (fx *fakeExchange) getBlocksOverlap(ctx context.Context, cids []cid.Cid) (<-chan blocks.Block, error) {
+	ch := make(chan blocks.Block, len(cids)+1)
+	call := &overlapCall{cids: cids, ch: ch, got: map[string]bool{}}
+	fx.mu.Lock()
+	if fx.byCID == nil {
+		fx.byCID = map[string]int{}
+		for i, c := range cids {
+			fx.byCID[c.KeyString()] = i
+		}
+		fx.order = append(fx.order, cids...)
+	}
+	fx.calls = append(fx.calls, call)
+	fx.mu.Unlock()
+	fx.entered <- len(cids)
+	if len(cids) == 0 {
+		close(ch)
+		return ch, nil
+	}
+	go func() {
+		defer close(ch)
+		select {
+		case <-fx.gate:
+		case <-ctx.Done():
+			return
+		}
+		fx.distribute.Do(fx.distributeOnce)
+		fx.mu.Lock()
+		complete := len(call.got) == len(cids)
+		fx.mu.Unlock()
+		if complete {
+			return
+		}
+		if fx.onQuiet != nil {
+			fx.onQuiet()
+		}
+		<-ctx.Done()
+	}()
+	return ch, nil
+}
+
+type overlapCall struct {
+	cids []cid.Cid
+	ch   chan blocks.Block
+	got  map[string]bool
+}
+
+func (fx *fakeExchange) distributeOnce() { fx.distributeRound(fx.scripts, 0) }
+
+// distributeRound plays one round of incoming messages: per CID the scripted candidates in order, each
+// hashed once; the first one that passes is handed to every call that wants the CID and has not got it.
+func (fx *fakeExchange) distributeRound(scripts map[string][]string, round int) {
+	fx.mu.Lock()
+	order := append([]cid.Cid(nil), fx.order...)
+	calls := append([]*overlapCall(nil), fx.calls...)
+	fx.mu.Unlock()
+	for i, want := range order {
+		idx := fmt.Sprint(i)
+		for pos, spec := range scripts[idx] {
+			kind, _ := splitKind(spec)
+			if kind == "silent" || kind == "none" {
+				break
+			}
+			data, label := fx.candidate(want, i, pos+10*round, spec)
+			if hb, err := fx.honest.Get(context.Background(), want); err == nil && bytes.Equal(hb.RawData(), data) {
+				label = "correct"
+			}
+			fx.mu.Lock()
+			fx.served[idx] = append(fx.served[idx], fmt.Sprintf("%s@%d", label, len(calls)))
+			fx.mu.Unlock()
+			got, err := want.Prefix().Sum(data)
+			if err != nil || !got.Equals(want) {
+				continue
+			}
+			blk, err := blocks.NewBlockWithCid(data, want)
+			if err != nil {
+				continue
+			}
+			for _, c := range calls {
+				for _, w := range c.cids {
+					fx.mu.Lock()
+					had := c.got[want.KeyString()]
+					fx.mu.Unlock()
+					if w.Equals(want) && !had {
+						fx.mu.Lock()
+						c.got[want.KeyString()] = true
+						fx.mu.Unlock()
+						c.ch <- blk
+					}
+				}
+			}
+			break // the wants are satisfied
+		}
+	}
 }
 
 // blockStore builds the block store a node type wires the bitswap getter to.
